@@ -536,3 +536,37 @@ func TestFixed(t *testing.T) {
 func TestCanaryReconcile(t *testing.T) {
 	vh.Canary(t, prop, "KF-C18-reconcile-kills-owned", Case{NTasks: 2, Envs: 1, Action: "reconnect", Point: "configured", Drops: 1}, vh.Confirmed(run))
 }
+
+// TestFirstRegistrationRepeated: the framework id assigned at the very first registration (empty configuration store) is stored.
+// The write races with nothing the harness can steer, so the first registration is simply repeated on fresh worlds.
+func TestFirstRegistrationRepeated(t *testing.T) {
+	n := vh.Scale(25, 400)
+	bad, first := 0, ""
+	for i := 0; i < n; i++ {
+		ag, det := simworld.DefaultAgents()
+		w, err := simworld.NewWorld(simworld.Options{Agents: ag, Detectors: det, ScratchName: "c18"})
+		if err != nil {
+			continue
+		}
+		fid := w.Master.FrameworkID()
+		stored := ""
+		for dl := time.Now().Add(time.Second); time.Now().Before(dl); time.Sleep(20 * time.Millisecond) {
+			if stored, _ = w.Consul.Get("o2/runtime/aliecs/mesos_fid"); stored == fid {
+				break
+			}
+		}
+		w.Close()
+		if stored != fid {
+			bad++
+			if first == "" {
+				first = fmt.Sprintf("registration %d: the master assigned framework id %q, one second later the configuration store holds %q", i, fid, stored)
+			}
+		}
+	}
+	res := vh.Result{NonTrivial: true, Classes: []string{"first-registration-repeated"}}
+	if bad > 0 {
+		res.Violation = fmt.Sprintf("%d of %d first registrations did not store the framework id; %s", bad, n, first)
+		res.Signature = "fid-not-stored"
+	}
+	vh.Fixed(t, prop, "first-registration-stores-the-framework-id", struct{ N int }{n}, func(struct{ N int }) vh.Result { return res })
+}
